@@ -1397,6 +1397,8 @@ def c17_text_cases(tier, seed):
 def c17_corr(res, exe, driver, tier, seed, tmp):
     cases = p_tty.c17_cases(tier, seed)
     out = run_tty_cases(res, exe, driver, cases, tmp, "junk", compare_output=False)
+    hcases = p_tty.c17_highlight_cases(tier, seed)
+    out += run_tty_cases(res, exe, driver, hcases, tmp, "junk-highlight", compare_output=False, rng=random.Random(seed), typeahead=0.2)
     tcases = c17_text_cases(tier, seed)
     out2 = run_tty_cases(res, exe, driver, tcases, tmp, "typeahead", compare_output=False)
     stats = {"reads": 0, "panic": 0, "wedged": 0, "driver_timeout": 0, "results": {}, "with_signals": 0, "typeahead_lines": 0}
@@ -1429,7 +1431,8 @@ def c17_corr(res, exe, driver, tier, seed, tmp):
             res.oracle_failures.append({"stream": "typeahead", "case": c.model_line(c.chunks), "keys": c.keys,
                                         "why": "keys lost: typed %r in %d writes then Enter, the read returned %s" % (
                                             c.meta["text"], len(c.chunks), rl[:1])})
-    res.distribution.update({"oracle": stats, "junk_scripts": len(cases), "typeahead_scripts": len(tcases)})
+    res.distribution.update({"oracle": stats, "junk_scripts": len(cases), "highlight_scripts": len(hcases),
+                             "typeahead_scripts": len(tcases)})
     res.rule = ("junk: chunks of arbitrary bytes (ESC runs, truncated / over-long CSI and SS3 sequences, paste without terminator, "
                 "huge and negative numeric arguments, NUL and C0/C1 controls, invalid and over-long UTF-8, multi-byte text) alone or "
                 "spliced into valid emacs/vi scripts; both modes, 3-6 reads, helpers (completer, hinter, bracket validator, bracket "
@@ -1437,7 +1440,8 @@ def c17_corr(res, exe, driver, tier, seed, tmp):
                 "stop/continue of the child at quiescent points in a quarter of the cases. The child runs every read under catch_unwind; "
                 "the driver hangs up at the end. Oracle: no panic, no stall (the child keeps reading until the hang-up and exits), a "
                 "result for every read. States before every key are also compared with the extracted model (not for the cases with "
-                "signals, where a pending prefix key is forgotten by design). typeahead: text written in few large writes then Enter "
+                "signals, where a pending prefix key is forgotten by design). junk-highlight: bracket-heavy lines under the stateful bracket "
+                "highlighter with searches, recalls, completions and undo replacing the line. typeahead: text written in few large writes then Enter "
                 "must come back complete, with and without a printer.")
     for c, impl, model, raw in out[:3]:
         res.samples.append({"keys": c.keys, "impl": " ## ".join(impl)[:300]})
